@@ -307,6 +307,19 @@ func (s *Sorts) heapForElem(el string) string {
 	return h
 }
 
+// ensureMapSort declares the map sort of the given key/value sorts (used when a contract talks about a map type
+// before the code's own map value was seen).
+func (s *Sorts) ensureMapSort(k, v string) string {
+	name := "MapRef_" + mangle(k) + "_" + mangle(v)
+	if _, ok := s.mapKV[name]; !ok {
+		s.mapKV[name] = [2]string{k, v}
+		mv := "MapVal_" + mangle(k) + "_" + mangle(v)
+		s.addDecl(mv, fmt.Sprintf("(declare-datatypes ((%s 0)) (((mk_%s (mhas_%s (Array %s Bool)) (mval_%s (Array %s %s)) (mcnt_%s Int)))))", mv, mv, mv, k, mv, k, v, mv))
+		s.aliases[name] = "Int"
+	}
+	return name
+}
+
 func (s *Sorts) mapHeap(mapSort string) (heap, valSort string) {
 	kv := s.mapKV[mapSort]
 	mv := "MapVal_" + mangle(kv[0]) + "_" + mangle(kv[1])
